@@ -117,6 +117,15 @@ func replay(args map[string]string) error {
 				// a request that carries a different cluster id must be refused
 				_, ferr := pd.S.IsBootstrapped(ctx, &pdpb.IsBootstrappedRequest{Header: &pdpb.RequestHeader{ClusterId: pd.S.ClusterID() + 1}})
 				ev["foreign_refused"] = ferr != nil
+				// ... and so must a bootstrap request that names another cluster, no cluster (id 0) or carries no header at all:
+				// refused before it has any effect, whether or not the cluster exists already
+				for _, h := range []*pdpb.RequestHeader{{ClusterId: pd.S.ClusterID() + 1}, {ClusterId: 0}, nil} {
+					breq := pd.BootstrapReq(91, 92, 93, "mock://uninvited")
+					breq.Header = h
+					if _, berr := pd.S.Bootstrap(ctx, breq); berr == nil {
+						ev["foreign_refused"] = false
+					}
+				}
 				ev["cluster_id_same"] = true
 				// once the cluster exists: a configuration update that names another cluster (id + 1, or no id at all) is refused,
 				// one that names this cluster is accepted, and the identity served and stored afterwards is still the same
